@@ -214,7 +214,9 @@ class ExecuteRegionOp(IRDLOperation):
         region: Region,
         attr_dict: dict[str, Attribute] | None = None,
     ):
-        super().__init__(result_types=(result_types,), regions=(region,))
+        super().__init__(
+            result_types=(result_types,), regions=(region,), attributes=attr_dict
+        )
 
     @classmethod
     def parse(cls, parser: Parser) -> Self:
@@ -472,6 +474,7 @@ class ForOp(IRDLOperation):
             self.body,
             IndexType,
         )
+        printer.print_op_attributes(self.attributes)
 
     @classmethod
     def parse(cls, parser: Parser) -> Self:
@@ -479,6 +482,7 @@ class ForOp(IRDLOperation):
         _, *iter_args = body.block.args
 
         for_op = cls(lb, ub, step, iter_arg_operands, body)
+        for_op.attributes |= parser.parse_optional_attr_dict()
 
         if not iter_args:
             for trait in for_op.get_traits_of_type(SingleBlockImplicitTerminator):
